@@ -73,7 +73,7 @@ func QUICID2Spec(id QUICID) (QUICSpec, error) {
 				InitPacketNumber:       1, // Chrome is special that it starts with 1 not 0
 				ClientTokenLength:      0,
 				FrameBuilder: &QUICRandomFrames{ // Chrome randomly inserts padding frames
-					MinPING:    0,
+					MinPING:    1, // the recorded fingerprint (frame-type set PADDING, PING, CRYPTO) needs at least one PING
 					MaxPING:    10,
 					MinCRYPTO:  1,
 					MaxCRYPTO:  10,
@@ -190,7 +190,7 @@ func QUICID2Spec(id QUICID) (QUICSpec, error) {
 				InitPacketNumber:       1, // Chrome is special that it starts with 1 not 0
 				ClientTokenLength:      0,
 				FrameBuilder: &QUICRandomFrames{ // Chrome randomly inserts padding frames
-					MinPING:    0,
+					MinPING:    1, // the recorded fingerprint (frame-type set PADDING, PING, CRYPTO) needs at least one PING
 					MaxPING:    10,
 					MinCRYPTO:  1,
 					MaxCRYPTO:  10,
